@@ -28,8 +28,8 @@ type propSpec struct {
 	Engine  string
 	Race    bool
 	Level   string
-	Shards  int   // max children
-	MemMB   int   // ulimit -v per child, 0 = none
+	Shards  int // max children
+	MemMB   int // ulimit -v per child, 0 = none
 	Rule    string
 	Assume  []string
 	Timeout time.Duration // per child wall-clock watchdog (inconclusive when it fires)
@@ -790,20 +790,20 @@ func report(prop string, spec propSpec, tier string, seed int64, results []*case
 
 	wall := time.Since(t0).Seconds()
 	cov := map[string]interface{}{
-		"evaluations":         evals,
-		"cases":               ncases,
-		"distinct_nontrivial": len(paths),
-		"rule":                spec.Rule,
-		"samples":             samples,
-		"held":                held,
-		"inconclusive":        inconc,
-		"violated_cases":      violCases,
-		"cases_not_run":       missing,
-		"observed":            obs,
-		"race_report_blocks":  raceBlocks,
-		"known_findings_hit":  knownHit,
+		"evaluations":              evals,
+		"cases":                    ncases,
+		"distinct_nontrivial":      len(paths),
+		"rule":                     spec.Rule,
+		"samples":                  samples,
+		"held":                     held,
+		"inconclusive":             inconc,
+		"violated_cases":           violCases,
+		"cases_not_run":            missing,
+		"observed":                 obs,
+		"race_report_blocks":       raceBlocks,
+		"known_findings_hit":       knownHit,
 		"new_violation_signatures": newViol,
-		"build_s":             buildS,
+		"build_s":                  buildS,
 	}
 	if len(inconcWhy) > 0 {
 		cov["inconclusive_reasons"] = inconcWhy
